@@ -156,7 +156,7 @@ def _withdraw_many(ctx):
     of them is released and paid in the same withdrawal — no page size or cap of a helper applies to the release loop"""
     from checks.c01 import ob_release, plain_batches
     return ob_release(12, 0, light=True, other=False, shape=plain_batches,
-                      only=('release:released', 'release:last', 'release:share', 'release:removed'))(ctx)
+                      only=('release:released', 'release:last', 'release:share'))(ctx)
 
 
 def _index_update_frame(ctx):
